@@ -489,24 +489,6 @@ Proof.
 Qed.
 
 (** * C07.2: who can cancel a context *)
-Definition keeps_tasks (a b : state) : Prop := forall k t, nth_error (tasks a) k = Some t -> nth_error (tasks b) k = Some t.
-
-Lemma settle1_keeps s s' os : settle1 s = Some (s', os) -> keeps_tasks s s'.
-Proof.
-  intros H. apply settle1_inv in H. destruct H; intros k t E; cbn; auto.
-  unfold dequeue. destruct (inq s) as [|[b ms] q]; [destruct (running s); auto|].
-  cbn. apply nth_error_app_old; auto.
-Qed.
-
-Lemma settle_keeps : forall fuel s acc s' os, settle fuel s acc = (s', os) -> keeps_tasks s s'.
-Proof.
-  induction fuel as [|f IH]; cbn; intros s acc s' os H.
-  - injection H as <- _. intros k t E; auto.
-  - destruct (settle1 s) as [[s1 os1]|] eqn:E.
-    + apply settle1_keeps in E. apply IH in H. intros k t Ek. auto.
-    + injection H as <- _. intros k t Ek; auto.
-Qed.
-
 Lemma find_op_some n l o : find_op n l = Some o -> In o l /\ op_num o = n.
 Proof. unfold find_op. intros H. apply find_some in H as [I E]. apply Nat.eqb_eq in E. auto. Qed.
 
